@@ -13,7 +13,7 @@
 // The sampler the factory builds is wrapped so that its answer is reported (`ext dec`); the real
 // StressRelief.GetSampleRate is wrapped the same way (`ext sr`).
 //
-// case header: host= reason= sc= cnt= dry= (0|1)  attrs=<k:v;k:v|->  srate=<stress SamplingRate>
+// case header: host= reason= sc= cnt= dry= (0|1)  attrs=<k:v;k:v|->  srate=<stress SamplingRate> [workers=1]
 // ops:
 //
 //	span <tid> <sid> <s|e|l> <root> <client rate> <cls> [<carried original_sample_rate>]   obs  buf | late <span> | latedrop
@@ -120,7 +120,47 @@ func genAttrs(r *kit.Rng) string {
 	return strings.Join(parts, ";")
 }
 
+// manyReasons is a case with n kept traces, each decided with its own reason string on the only
+// worker (the kept-reasons table hands out growing 1-based indexes per worker), followed by late
+// spans of traces spread over the whole index range, in particular around 256 and 512.
+func manyReasons(r *kit.Rng, n int) kit.Case {
+	hdr := fmt.Sprintf("host=%d reason=1 sc=%d cnt=0 dry=0 attrs=- srate=1 workers=1", b2i(r.Chance(50)), b2i(r.Chance(50)))
+	var ops []string
+	sid := 0
+	for i := 0; i < n; i++ {
+		sid++
+		ops = append(ops, fmt.Sprintf("span m%d %d s 0 %d a", i, sid, 1+r.Intn(3)))
+		ops = append(ops, fmt.Sprintf("decidex m%d %d 1 %s %%", i, 1+r.Intn(9), kit.Enc(fmt.Sprintf("rules/trace/rule %d", i))))
+	}
+	var late []int
+	for _, c := range []int{0, 1, 127, 128, 253, 254, 255, 256, 257, 258, 300, 509, 510, 511, 512, 513, 514, n - 2, n - 1} {
+		if c >= 0 && c < n {
+			late = append(late, c)
+		}
+	}
+	for i := 0; i < 12; i++ {
+		late = append(late, r.Intn(n))
+	}
+	for _, i := range late {
+		sid++
+		root := b2i(r.Chance(30))
+		ops = append(ops, fmt.Sprintf("span m%d %d s %d %d a", i, sid, root, r.Intn(4)))
+		if r.Chance(25) {
+			sid++
+			ops = append(ops, fmt.Sprintf("stress m%d %d s 0 %d a", i, sid, r.Intn(4)))
+		}
+	}
+	return kit.Case{Header: hdr, Ops: ops}
+}
+
 func (comp) Gen(r *kit.Rng, maxLen int, tier string) kit.Case {
+	if r.Intn(150) == 0 { // a few cases per run with more decision reasons than fit in a byte / two bytes' worth of slots
+		n := 300 + r.Intn(80)
+		if tier == "thorough" {
+			n = 300 + r.Intn(401)
+		}
+		return manyReasons(r, n)
+	}
 	bit := func(p int) int { return b2i(r.Chance(p)) }
 	host, reason, sc, cnt, dry := bit(50), bit(60), bit(50), bit(40), bit(15)
 	attrs := genAttrs(r)
@@ -326,6 +366,10 @@ func parseAttrs(s string) map[string]string {
 func (comp) NewCase(h []string) kit.Runner {
 	flag := func(k string) bool { return kit.KV(h, k) == "1" }
 	srate, _ := strconv.ParseUint(kit.KV(h, "srate"), 10, 64)
+	workers := 2
+	if kit.KV(h, "workers") == "1" {
+		workers = 1
+	}
 	mc := &config.MockConfig{
 		GetTracesConfigVal: config.TracesConfig{
 			SendTicker:   config.Duration(1000000 * time.Hour), // the harness owns the schedule
@@ -337,9 +381,9 @@ func (comp) NewCase(h []string) kit.Runner {
 			KeptSize:          4096,
 			DroppedSize:       4096,
 			SizeCheckInterval: config.Duration(time.Hour),
-			WorkerCount:       2,
+			WorkerCount:       uint(workers),
 		},
-		GetCollectionConfigVal: config.CollectionConfig{WorkerCount: 2, IncomingQueueSize: 64, PeerQueueSize: 64},
+		GetCollectionConfigVal: config.CollectionConfig{WorkerCount: workers, IncomingQueueSize: 64, PeerQueueSize: 64},
 		Samplers:               samplers(),
 		DryRun:                 flag("dry"),
 		AddHostMetadataToTrace: flag("host"),
